@@ -377,6 +377,7 @@ func corr(seed uint64, n, exh int) {
 	}
 	corrSamples(rng, n/2+1)
 	corrWalk(rng, n/2+1)
+	corrMultiMdat(rng, n/2+1)
 }
 
 // ---------------------------------------------------------------- search: the property itself
@@ -465,6 +466,7 @@ func search(seed uint64, n, exh int) {
 	searchSamples(rng, n/2+1)
 	searchFragmented(rng, n/2+1)
 	searchRealFiles(rng, n/4+2, *repoDir)
+	evals += searchMultiMdat(rng, n+50)
 	fmt.Fprintf(out, "EVALS\t%d\n", evals)
 }
 
